@@ -43,8 +43,8 @@ def t_expect(ctx):
     P = [ctx.int(f'p{i}', 0, pm) for i in range(3)]
     a = ctx.int('a', 0, pm)
     b = ctx.int('b', 0, pm + 1)
-    t0 = ctx.real('t0', 0, Exact('2/5'))
-    g1 = ctx.real('g1', 0, Exact('1/5'))
+    t0 = Exact(ctx.cfg['pin_t0']) if 'pin_t0' in ctx.cfg else ctx.real('t0', 0, Exact('2/5'))
+    g1 = Exact(ctx.cfg['pin_g1']) if 'pin_g1' in ctx.cfg else ctx.real('g1', 0, Exact('1/5'))
     g2 = Exact(ctx.cfg.get('g2', '1/10'))
     t_e = ctx.real('t_e', 0, Exact('2/5')) if ctx.cfg.get('sym_te', True) else Exact(ctx.cfg.get('t_e', 0))
     c = ctx.int('c', 0, pm) if variant == 'predicate_raises' else None
@@ -55,6 +55,8 @@ def t_expect(ctx):
     dsr = ctx.cfg.get('ds_range', ['0', '2/5'])
     d_s = ctx.real('d_s', Exact(dsr[0]), Exact(dsr[1])) if variant == 'slow_timeout' else None
     RQcls = LegacyRQ if variant == 'override' else RQ
+    d_z = ctx.real('d_z', 0, Exact('3/10')) if variant == 'blocked' else None
+    t_clear = ctx.real('t_clear', 0, Exact('2/5')) if variant == 'clear_during' else None
     ctx.new_loop(horizon=5)
     loop = ctx.loop
     bus = ctx.bus('A')
@@ -77,20 +79,38 @@ def t_expect(ctx):
         bus.on(RQ, slow)
     res = {}
     evs = []
+    if variant == 'blocked':
+        zbus = ctx.bus('Z')
+
+        async def zslow(ev):
+            await asyncio.sleep(d_z)
+            return 'z'
+        zbus.on(OT, zslow)
 
     async def disp():
         await asyncio.sleep(t0)
         for i in range(3):
+            if res.get('stopping'):
+                break             # nothing is dispatched to a stopped bus (dispatch after stop() is a different matter, see DESIGN F19)
             e = RQcls(p=P[i], event_timeout=float(T_EV) if variant == 'slow_timeout' else 30.0)
             idx_of[e.event_id] = i
             evs.append(e)
             ctx.adopt(e, f'R{i}')
-            bus.dispatch(e)
+            try:
+                bus.dispatch(e)
+            except Exception:
+                if variant != 'clear_during':
+                    raise
+                continue          # the bus was stopped meanwhile
             if i == 0:
                 o = OT(p=3, event_timeout=30.0)
                 idx_of[o.event_id] = 'o'
                 ctx.adopt(o, 'O')
-                bus.dispatch(o)
+                try:
+                    bus.dispatch(o)
+                except Exception:
+                    if variant != 'clear_during':
+                        raise
                 await asyncio.sleep(g1)
             elif i == 1:
                 await asyncio.sleep(g2)
@@ -113,6 +133,8 @@ def t_expect(ctx):
             res[tag]['got'] = ev
         except TimeoutError:
             res[tag]['got'] = 'timeout'
+        except Exception as ex:  # noqa
+            res[tag]['got'] = ex
         except asyncio.CancelledError:
             res[tag]['got'] = 'cancelled'
             raise
@@ -123,11 +145,20 @@ def t_expect(ctx):
     async def main():
         reg0 = registry()
         res['reg0'] = reg0
+        if variant == 'blocked':
+            zbus.dispatch(OT(p=0, event_timeout=30.0))     # Z's handler holds the global lock for d_z
+            await asyncio.sleep(0)
         dt = asyncio.ensure_future(disp())
         await asyncio.sleep(t_e)
         ts = [asyncio.ensure_future(one_expect('e1', a, b))]
         if variant == 'two':
             ts.append(asyncio.ensure_future(one_expect('e2', a2, pm + 1)))
+        if variant == 'clear_during':
+            # the bus is stopped and cleared while the expect() call is pending
+            await asyncio.sleep(t_clear)
+            res['cleared_while_pending'] = not ts[0].done()
+            res['stopping'] = True
+            await bus.stop(clear=True)
         if variant == 'cancel':
             await asyncio.sleep(t_c)
             res['cancel_done_before'] = ts[0].done()
@@ -141,6 +172,15 @@ def t_expect(ctx):
     fin = ctx.run(main())
     ctx.check('C18.terminates', bool(fin))
     if not fin:
+        return
+    if variant == 'clear_during':
+        # after stop(clear=True) nothing is delivered any more: the only legitimate outcomes are a match found before, or TimeoutError
+        got = res['e1']['got']
+        ctx.check('C18.outcome_kind', got == 'timeout' or isinstance(got, RQ), got=repr(got)[:80], why='expect() ended with something other than a match or TimeoutError')
+        ctx.check('C18.unsubscribed', not any('expect(' in getattr(h, '__name__', '') for hs in bus.handlers.values() for h in hs), why='temporary handler left behind')
+        ctx.witness('timeout' if got == 'timeout' else 'match')
+        if res.get('cleared_while_pending'):
+            ctx.witness('cleared while pending')
         return
     # ---- others unaffected: mon ran exactly once per dispatched event
     idxs = [idx_of[e.event_id] for (e, _, _) in seen]
@@ -214,10 +254,12 @@ def jobs(tier):
         for rng in (['0', '1/10'], ['1/10', '1/5'], ['1/5', '3/10'], ['3/10', '2/5']):
             out.append(Job('C18', 's1.expect', t_expect, dict(variant='slow_timeout', sym_te=False, t_e='0', pmax=1, ds_range=rng)))
         out.append(Job('C18', 's1.expect', t_expect, dict(variant='override', sym_te=False, t_e='0', pmax=1)))
+        out.append(Job('C18', 's1.expect', t_expect, dict(variant='clear_during', sym_te=False, t_e='0', pmax=0), witnesses=('cleared while pending',)))
+        out.append(Job('C18', 's1.expect', t_expect, dict(variant='blocked', sym_te=True, pmax=0, pin_t0='1/50', pin_g1='1/10'), witnesses=W))
         for rng in (['0', '3/20'], ['3/20', '3/10'], ['3/10', '9/20'], ['9/20', '3/5']):
             out.append(Job('C18', 's1.expect', t_expect, dict(variant='cancel', sym_te=False, t_e='0', pmax=1, tc_range=rng)))
     else:
-        for v in ('basic', 'predicate_raises', 'two', 'cancel', 'slow_timeout', 'override'):
+        for v in ('basic', 'predicate_raises', 'two', 'cancel', 'slow_timeout', 'override', 'clear_during', 'blocked'):
             out.append(Job('C18', 's1.expect', t_expect, dict(variant=v, sym_te=True), max_paths=20000))
             for te in ('0', '1/10', '1/4', '2/5'):
                 out.append(Job('C18', 's1.expect', t_expect, dict(variant=v, sym_te=False, t_e=te), max_paths=20000))
